@@ -775,12 +775,140 @@ func genShapes(r *hx.Rng) Desc {
 	if r.Chance(1, 2) {
 		d.Mode = "combine"
 	}
+	if r.Chance(1, 10) {
+		// a single thin shape longer than a block
+		ds := throughBlockStream(r)
+		return ds[r.Intn(len(ds)-1)]
+	}
 	n := 1 + r.Intn(4)
 	anchor := genAnchor(r)
 	for i := 0; i < n; i++ {
 		d.Shapes = append(d.Shapes, genShape(r, cpu, anchor, 5, n == 1))
 	}
 	return d
+}
+
+// ---- systematic streams tied to the storage blocks ----
+
+// a lattice-aligned box whose below-cutoff samples are exactly the lattice points lo..hi (faces half a cell
+// outside them); 8 cubes per unit so that every coordinate is exact
+func sampleBox(lo, hi [3]int, cpu float64, note string) Desc {
+	var c, q [3]float64
+	for k := 0; k < 3; k++ {
+		c[k] = (float64(lo[k]+hi[k]) / 2) / cpu
+		q[k] = float64(hi[k]-lo[k]+1) / cpu
+	}
+	return Desc{Cpu: cpu, Mode: "add", Note: note, Shapes: []Shape{{Kind: "box", P: c, Q: q, S: 1}}}
+}
+
+// interior coordinate of some block (possibly a negative one) for the axes a shape does not run along
+func interiorCoord(r *hx.Rng) int { return blockSize*r.Range(-2, 1) + r.Range(20, 70) }
+
+// Shapes that run THROUGH a whole block along one axis: longer than 100 cells, thin, entering and leaving the
+// block through its first and last sample plane.
+//   - per axis a beam whose below-cutoff samples span exactly 100m-1 .. 100m+100 (last plane of block m-1, all of
+//     block m, first plane of block m+1) and one spanning exactly 100m .. 100m+99 (the block's own planes),
+//   - per axis a capsule 101..260 cells long starting up to 30 cells before a block boundary, slightly tilted,
+//   - one capsule diagonal in a coordinate plane, more than 100 cells along both axes.
+func throughBlockStream(r *hx.Rng) []Desc {
+	out := []Desc{}
+	for ax := 0; ax < 3; ax++ {
+		for v := 0; v < 2; v++ {
+			m := r.Range(-2, 1)
+			var lo, hi [3]int
+			for k := 0; k < 3; k++ {
+				lo[k] = interiorCoord(r)
+				hi[k] = lo[k] + r.Range(1, 2)
+			}
+			if v == 0 {
+				lo[ax], hi[ax] = blockSize*m-1, blockSize*m+blockSize
+			} else {
+				lo[ax], hi[ax] = blockSize*m, blockSize*m+blockSize-1
+			}
+			d := sampleBox(lo, hi, 8, fmt.Sprintf("beam through block %d along axis %d, below-cutoff samples %d..%d", m, ax, lo[ax], hi[ax]))
+			d.Parallel = r.Chance(1, 3)
+			out = append(out, d)
+		}
+		cpu := hx.Pick(r, []float64{3, 4, 5, 6, 8, 10})
+		m := r.Range(-2, 1)
+		var a, b [3]float64
+		for k := 0; k < 3; k++ {
+			a[k] = float64(interiorCoord(r)) + r.Float()
+			b[k] = a[k] + (r.Float()*2 - 1)
+		}
+		a[ax] = float64(blockSize*m) - float64(r.Range(1, 30)) - r.Float()
+		b[ax] = a[ax] + float64(r.Range(101, 260)) + r.Float()
+		var p, q [3]float64
+		for k := 0; k < 3; k++ {
+			p[k], q[k] = a[k]/cpu, b[k]/cpu
+		}
+		if r.Bool() {
+			p, q = q, p
+		}
+		out = append(out, Desc{Cpu: cpu, Cutoff: genCutoff(r, cpu), Mode: "add", Parallel: r.Chance(1, 3),
+			Note:   fmt.Sprintf("capsule through whole blocks along axis %d", ax),
+			Shapes: []Shape{{Kind: "line", P: p, Q: q, R: (0.9 + 0.8*r.Float()) / cpu, S: 1}}})
+	}
+	// diagonal in a coordinate plane
+	{
+		cpu := hx.Pick(r, []float64{3, 4, 5})
+		u := r.Intn(3)
+		w := (u + 1 + r.Intn(2)) % 3
+		var a, b [3]float64
+		for k := 0; k < 3; k++ {
+			a[k] = float64(interiorCoord(r)) + r.Float()
+			b[k] = a[k] + (r.Float()*2 - 1)
+		}
+		for _, k := range []int{u, w} {
+			a[k] = float64(blockSize*r.Range(-1, 0)) - float64(r.Range(1, 25)) - r.Float()
+			b[k] = a[k] + float64(r.Range(128, 160)) + r.Float()
+		}
+		var p, q [3]float64
+		for k := 0; k < 3; k++ {
+			p[k], q[k] = a[k]/cpu, b[k]/cpu
+		}
+		out = append(out, Desc{Cpu: cpu, Mode: "add", Note: fmt.Sprintf("capsule diagonal in the plane of axes %d and %d, through whole blocks", u, w),
+			Shapes: []Shape{{Kind: "line", P: p, Q: q, R: (0.9 + 0.5*r.Float()) / cpu, S: 1}}})
+	}
+	return out
+}
+
+// Short shapes whose extreme below-cutoff sample lies exactly on the first (index 0) or last (index 99) sample
+// plane of a block: for every axis, for the lower and the upper end of the shape, for both planes, alternating
+// between negative and non-negative blocks (12 cases).
+func blockPlaneStream(r *hx.Rng) []Desc {
+	out := []Desc{}
+	n := 0
+	for ax := 0; ax < 3; ax++ {
+		for _, upper := range []bool{false, true} {
+			for _, plane := range []int{0, blockSize - 1} {
+				m := r.Range(0, 1)
+				if n%2 == 1 {
+					m = r.Range(-2, -1)
+				}
+				n++
+				var lo, hi [3]int
+				for k := 0; k < 3; k++ {
+					lo[k] = interiorCoord(r)
+					hi[k] = lo[k] + r.Range(1, 3)
+				}
+				ext := blockSize*m + plane
+				if upper {
+					lo[ax], hi[ax] = ext-r.Range(2, 4), ext
+				} else {
+					lo[ax], hi[ax] = ext, ext+r.Range(2, 4)
+				}
+				end := "lowest"
+				if upper {
+					end = "highest"
+				}
+				d := sampleBox(lo, hi, hx.Pick(r, []float64{4, 8, 16}), fmt.Sprintf("%s below-cutoff sample along axis %d at lattice coordinate %d (index %d of block %d)", end, ax, ext, plane, m))
+				d.Parallel = r.Chance(1, 3)
+				out = append(out, d)
+			}
+		}
+	}
+	return out
 }
 
 // arbitrary sign pattern on a small lattice (outer layer above the cutoff).  Without `pinch` every sample is
@@ -1150,6 +1278,13 @@ func main() {
 	jobs = append(jobs, newJob("cell-pattern", caseLattice(0x5a, [3]int{98, -102, 198}, 8, r)))
 	jobs = append(jobs, newJob("shapes", Desc{Cpu: 10, Mode: "add", Shapes: []Shape{{Kind: "sphere", P: [3]float64{0, 0, 0}, R: 0.5, S: 1}}}))
 	jobs = append(jobs, newJob("shapes", Desc{Cpu: 8, Mode: "add", Parallel: true, Shapes: []Shape{{Kind: "box", P: [3]float64{12.5, -6.25, 3}, Q: [3]float64{1, 0.5, 0.75}, S: 1}}}))
+
+	for _, d := range throughBlockStream(r) {
+		jobs = append(jobs, newJob("through-block", d))
+	}
+	for _, d := range blockPlaneStream(r) {
+		jobs = append(jobs, newJob("block-plane", d))
+	}
 
 	nBig := 2
 	if run.Tier == "thorough" {
